@@ -326,7 +326,6 @@ func (c *C15Inspect) Run() string {
 	return msg
 }
 
-
 // C15AllMasks sweeps every mask over the elements of a shape.
 type C15AllMasks struct {
 	Shape []int  `json:"shape"`
